@@ -1,7 +1,7 @@
 """Drives a real Model with a scripted population system and real AgentCollector / FileCollector objects (real files in a
 temporary directory) and records traces for spec/Collectors_Trace.tla.  No expectation is computed here.
 
-Program: {"acs": [{name,start,end,freq,fkind,comp,incl}], "fcs": [{name,start,end,freq,wc,k}], "first": "pop"|"collectors",
+Program: {"acs": [{name,start,end,freq,fkind,comp,incl}], "fcs": [{name,start,end,freq,wc,plan}], "first": "pop"|"collectors",
           "ops": [["between", [[kind,id]..]] | ["step", [[kind,id]..]] ...]}          kind: join | leave | touch
 """
 import copy
@@ -71,15 +71,15 @@ COMPS = {
 
 
 class LineFile(FileCollector):
-    """A file collector whose collection at timestep t consists of k self-identifying lines."""
+    """A file collector whose collection at timestep t consists of plan[t mod len(plan)] self-identifying lines."""
 
-    def __init__(self, id, model, filename, k, **kw):
+    def __init__(self, id, model, filename, plan, **kw):
         super().__init__(id, model, filename, **kw)
-        self.k = k
+        self.plan = plan
 
     def collect(self):
         t = self.model.systems.timestep
-        for j in range(1, self.k + 1):
+        for j in range(1, self.plan[t % len(self.plan)] + 1):
             self.records.append("%d.%d\n" % (t, j))
 
 
@@ -115,7 +115,7 @@ def _run(prog, tmp):
             m.systems.add_system(c)
             acs[a["name"]] = c
         for f in prog["fcs"]:
-            c = LineFile(f["name"], m, os.path.join(tmp, f["name"] + ".txt"), f["k"], frequency=f["freq"], start=f["start"],
+            c = LineFile(f["name"], m, os.path.join(tmp, f["name"] + ".txt"), f["plan"], frequency=f["freq"], start=f["start"],
                          end=_end(f["end"]), write_count=f["wc"])
             m.systems.add_system(c)
             fcs[f["name"]] = c
@@ -169,7 +169,8 @@ def random_program(rng, steps=8):
     fcs = []
     for k in range(rng.randint(1, 2)):
         s, e, f = window()
-        fcs.append({"name": "f%d" % k, "start": s, "end": e, "freq": f, "wc": rng.choice([0, 0, 1, 2, 3]), "k": rng.choice([0, 1, 1, 2])})
+        fcs.append({"name": "f%d" % k, "start": s, "end": e, "freq": f, "wc": rng.choice([0, 0, 1, 2, 3]),
+                    "plan": rng.choice([[1], [0], [2], [0, 1], [0, 0, 1, 1], [1, 0, 0, 0, 2], [0, 0, 0, 1, 2, 0], [2, 0]])})
     ops = []
 
     def popops(n):
@@ -183,17 +184,17 @@ def random_program(rng, steps=8):
 
 
 def sweep_programs():
-    """write_count 0..3 x records per collection 0..2 x 9 timesteps (two full flush cycles), population changing."""
+    """write_count 0..3 x record plans (constant 0..2, and whole flush groups without records) x 9 timesteps, population changing."""
     out = []
     for wc in range(4):
-        for k in range(3):
+        for k in ([0], [1], [2], [0, 0, 1], [0, 0, 0, 1, 1], [1, 0, 0, 0, 0, 2]):
             for first in ("pop", "collectors"):
                 ops = [["step", [["join", "x"]]], ["step", [["join", "y"], ["touch", "x"]]], ["step", []], ["step", [["leave", "x"]]],
                        ["step", [["touch", "y"]]], ["step", [["touch", "y"], ["join", "x"]]], ["step", []], ["step", [["leave", "y"]]], ["step", []]]
                 out.append({"acs": [{"name": "c0", "start": 0, "end": FOREVER, "freq": 1, "fkind": "odd_none", "comp": "total", "incl": True},
                                     {"name": "c1", "start": 1, "end": 6, "freq": 2, "fkind": "value", "comp": "nofunc", "incl": False}],
-                            "fcs": [{"name": "f0", "start": 0, "end": FOREVER, "freq": 1, "wc": wc, "k": k},
-                                    {"name": "f1", "start": 2, "end": FOREVER, "freq": 2, "wc": wc, "k": 1}],
+                            "fcs": [{"name": "f0", "start": 0, "end": FOREVER, "freq": 1, "wc": wc, "plan": k},
+                                    {"name": "f1", "start": 2, "end": FOREVER, "freq": 2, "wc": wc, "plan": [0, 1, 1]}],
                             "first": first, "ops": ops})
     return out
 
